@@ -27,6 +27,8 @@ const (
 // WriteFault makes the j-th client Write fail after accepting Accept bytes.
 type WriteFault struct {
 	Accept int
+	// Persistent: every later write fails as well (a broken pipe), accepting nothing.
+	Persistent bool
 }
 
 // Net is the simulated network of one run.
@@ -64,6 +66,7 @@ type Conn struct {
 	PeerStalled  bool
 	SendWindow   int
 	stalledBytes int
+	brokenPipe   bool
 	// WriteFaults by index of the client's Write call.
 	WriteFaults map[int]WriteFault
 
@@ -308,7 +311,14 @@ func (n *Net) grantWrite(t *Task) string {
 		c.BytesFromClient += len(b)
 		return fmt.Sprintf("%d (buffered, peer stalled)", len(b))
 	}
-	if f, ok := c.WriteFaults[idx]; ok {
+	f, ok := c.WriteFaults[idx]
+	if !ok && c.brokenPipe {
+		f, ok = WriteFault{Accept: 0}, true
+	}
+	if ok && f.Persistent {
+		c.brokenPipe = true
+	}
+	if ok {
 		acc := f.Accept
 		// a failed write never reports all bytes as written
 		if acc >= len(b) {
